@@ -384,6 +384,11 @@ def merge_pairing(ctx, rid, only=None):
             rv = st["rv"]
             src = origins(rc, [rv.get("op"), rv.get("a"), rv.get("b")] + rv.get("ops", []) + ([rv["place"]] if "place" in rv else []), stop_adts=(G,))
             written[f].append((i, {x for a, x in src.fields if a == G}))
+            keeps_old = sorted(v for v in src.via if v.rsplit("::", 1)[-1] in ("or", "or_else", "xor", "take", "get_or_insert", "get_or_insert_with", "replace") and "option::Option" in v)
+            if keeps_old and (not only or f in only):
+                # `to = to.take().or(from)` keeps the EARLIER value: the documented rule is that a later-included file overrides
+                ctx.fail(rid, where(rc, i), "global.%s: the merge prefers the value already present over the included one (%s) — a later-included [global] option must override earlier ones" % (f, [v.rsplit("::", 1)[-1] for v in keeps_old]),
+                         ["config::read_cnf", "merge-keeps-old", f])
         t = rc.term(i)
         if t["t"] == "call":
             from ..mir import CallSite
